@@ -112,6 +112,7 @@ type GenCfg struct {
 	Consts   bool // named constants
 	Aliases  bool
 	BoolW    int // weight of and/or among boolean operators (default 4)
+	VarW     int // weight of variables among leaves (default 4; literals have 5)
 }
 
 type G struct {
@@ -139,7 +140,11 @@ func (g *G) Leaf(ty m.Ty) *m.Node {
 	if g.BadVars && (ty == m.TInt || ty == m.TBool) {
 		bw = 1
 	}
-	switch pickW(g.t, "leaf", 5, 4, bw, cw) {
+	vw := g.VarW
+	if vw == 0 {
+		vw = 4
+	}
+	switch pickW(g.t, "leaf", 5, vw, bw, cw) {
 	case 0:
 		return m.Const(genVal(g.t, ty, "lit"))
 	case 1:
